@@ -98,6 +98,23 @@ def handle2 : List String → Option String
       let n0 ← P.nat; let n1 ← P.nat; let n2 ← P.nat; let l ← P.rep P.rat (n0 * n1 * n2); P.done
       let r := rotCorr3 ⟨ax, ay, az⟩ R ⟨dt, arr3OfList n0 n1 n2 l⟩
       pure (s!"{showDT r.dt} {n0} {n1} {n2} | " ++ showRats (arr3ToList r.arr))) rest
+  | "transfops" :: rest => runP (do
+      -- transfops <rounding> <mode> csS csD tx ty σ ang <nops> (A <tarr> | S tx ty σ ang)* : one correction object; prints the result
+      -- of the LAST apply
+      let rnd ← pRnd; let mode ← pMode'; let csS ← pCS2'; let csD ← pCS2'
+      let t ← pV2'; let σ ← P.rat; let ang ← P.rat
+      let ops ← P.list (do
+        let k ← P.tok
+        if k = "A" then (do let a ← pTArr; pure (TOp.apply a))
+        else (do let t' ← pV2'; let σ' ← P.rat; let ang' ← P.rat; pure (TOp.setParams (Affine2.mk' t' σ' (cosT ang') (sinT ang')))))
+      P.done
+      let step := tstep mode csS csD rnd
+      let fin := ops.foldl (fun (acc : TState × Option TArr) op =>
+        let r := step acc.1 op
+        (r.1, match r.2 with | some x => some x | none => acc.2)) (⟨0, Affine2.mk' t σ (cosT ang) (sinT ang), none⟩, none)
+      match fin.2 with
+      | some r => pure (showTArr r)
+      | none => pure "none") rest
   | "transfrun" :: rest => runP (do
       let rnd ← pRnd; let mode ← pMode'; let csS ← pCS2'; let csD ← pCS2'
       let t ← pV2'; let σ ← P.rat; let ang ← P.rat
